@@ -261,7 +261,7 @@ func c06(r *Report) {
 		strip := anyIn(sl, func(x ssa.Value) bool {
 			e, ok := x.(*ssa.Extract)
 			return ok && e.Index == 0 && isCallValue(e.Tuple, "net.SplitHostPort")
-		}) && anyIn(sl, func(x ssa.Value) bool { return x == ssa.Value(cert.Params[1]) })
+		}) && anyIn(sl, func(x ssa.Value) bool { return isParamVal(x, cert.Params[1]) })
 		// exactly that: every value the name can take is the parameter itself or the host part
 		// SplitHostPort returned (no truncation, no other transformation), and the split is
 		// attempted for every name (a shortcut that decides by the look of the text whether there
@@ -269,7 +269,7 @@ func c06(r *Report) {
 		exact := true
 		for _, l := range resolveAll(name) {
 			e, isE := l.(*ssa.Extract)
-			if l == ssa.Value(cert.Params[1]) || (isE && e.Index == 0 && isCallValue(e.Tuple, "net.SplitHostPort")) {
+			if isParamVal(l, cert.Params[1]) || (isE && e.Index == 0 && isCallValue(e.Tuple, "net.SplitHostPort")) {
 				continue
 			}
 			exact = false
@@ -333,7 +333,7 @@ func c06(r *Report) {
 				ok := false
 				for _, sts := range fieldsWritten(fn) {
 					for _, st := range sts {
-						if fa, isFa := st.Addr.(*ssa.FieldAddr); isFa && fieldObj(fa).Name() == sf.field && len(fn.Params) > 1 && anyIn(w.backSlice(st.Val, flowOpt{}), func(v ssa.Value) bool { return v == ssa.Value(fn.Params[1]) }) {
+						if fa, isFa := st.Addr.(*ssa.FieldAddr); isFa && fieldObj(fa).Name() == sf.field && len(fn.Params) > 1 && anyIn(w.backSlice(st.Val, flowOpt{}), func(v ssa.Value) bool { return isParamVal(v, fn.Params[1]) }) {
 							ok = true
 						}
 					}
